@@ -18,7 +18,7 @@ RULE = ("structural part: every symmetric 0/1 matrix on n<=4 atoms x every eleme
         "orders (<=5 atoms quick, <=6 thorough) or shifts + reversal + transpositions: every atom gets a standard valence, all charges "
         "and unpaired electrons are zero, support equals connectivity; the public path g.to_rdmol(generate_bond_orders=True) on the "
         "listed molecules, hydrocarbons and a stride of the enumeration (MolGraph / StereoMolGraph, three identifier schemes, both "
-        "insertion orders): standard valences, no charges, no radicals, same bonds on the RDKit molecule.  distinct = (molecule, atom order) calls")
+        "insertion orders, and cut out of a larger graph with subgraph()): standard valences, no charges, no radicals, same bonds on the RDKit molecule.  distinct = (molecule, atom order) calls")
 ASSUMPTIONS = ["standard valences: H1 C4 N3 O2 F/Cl/Br/I 1 S{2,6} P{3,5}; the Kekule structure itself is not compared",
                "'all molecules' is cut at 3 (quick) / 4 (thorough) heavy atoms plus the list"]
 BUDGET = {"quick": 600, "thorough": 1800}
@@ -129,13 +129,24 @@ def _to_rdmol(item, out):
             schemes = {"1..n": list(range(1, n + 1)), "scattered": SCATTER[:n], "descending": list(range(n, 0, -1))}
         for sname, ids in schemes.items():
             for cls in (smg.MolGraph, smg.StereoMolGraph):
-                for rev in (False, True):
+                for rev in (False, True, "subgraph"):
                     g = cls()
-                    order = list(range(n))[::-1] if rev else list(range(n))
+                    order = list(range(n))[::-1] if rev is True else list(range(n))
                     for i in order:
                         g.add_atom(ids[i], els[i])
-                    for (i, j) in (sorted(bo, reverse=True) if rev else sorted(bo)):
+                    for (i, j) in (sorted(bo, reverse=True) if rev is True else sorted(bo)):
                         g.add_bond(ids[i], ids[j])
+                    if rev == "subgraph":
+                        # the exported graph is cut out of a larger one (a water molecule next to it), atoms named heavy-first in
+                        # descending identifier order
+                        w = max(ids) + 10
+                        g.add_atom(w, "O")
+                        g.add_atom(w + 1, "H")
+                        g.add_atom(w + 2, "H")
+                        g.add_bond(w, w + 1)
+                        g.add_bond(w, w + 2)
+                        pick = sorted(ids, key=lambda a: (els[ids.index(a)] == "H", -a))
+                        g = g.subgraph(pick)
                     out["evals"] += 1
                     out["distinct"] += 1
                     oc["to_rdmol"] = oc.get("to_rdmol", 0) + 1
@@ -143,7 +154,7 @@ def _to_rdmol(item, out):
                     def V(clause, what):
                         out["viol"].append({"sig": f"C18/to_rdmol/{clause}", "input": f"{name}|{sname}|{cls.__name__}|{rev}",
                                             "what": what + f" [{name}: {els} bonds {sorted(bo.items())}, identifiers {sname}"
-                                                           f"{', reversed insertion' if rev else ''}, {cls.__name__}]",
+                                                           f"{', reversed insertion' if rev is True else (', cut out with subgraph()' if rev else '')}, {cls.__name__}]",
                                             "item": item, "detail": None})
                     try:
                         with warnings.catch_warnings():
